@@ -362,9 +362,30 @@ func genRetransmit(g *gen, repo string) {
 	// checkMidHandlerContainer: IsExpired -> Delete + return precedes Retransmit
 	ck := funcDecl(f, "Conn", "checkMidHandlerContainer")
 	expFirst := false
+	// deletes(n): n removes the entry, directly or through a method of Conn whose body does
+	deletes := func(n ast.Node) bool {
+		if len(drCallsIn(n, "cc.midHandlerContainer.Delete")) >= 1 {
+			return true
+		}
+		found := false
+		ast.Inspect(n, func(x ast.Node) bool {
+			if c, ok := x.(*ast.CallExpr); ok {
+				if sel, ok := c.Fun.(*ast.SelectorExpr); ok && identName(sel.X) == "cc" {
+					for _, d := range f.Decls {
+						if fd, ok := d.(*ast.FuncDecl); ok && fd.Name.Name == sel.Sel.Name && fd.Recv != nil && fd.Body != nil &&
+							len(drCallsIn(fd.Body, "cc.midHandlerContainer.Delete")) >= 1 {
+							found = true
+						}
+					}
+				}
+			}
+			return true
+		})
+		return found
+	}
 	if len(ck.Body.List) >= 2 {
 		if is, ok := ck.Body.List[0].(*ast.IfStmt); ok && len(drCallsIn(is.Cond, "value.IsExpired")) == 1 &&
-			len(drCallsIn(is.Body, "cc.midHandlerContainer.Delete")) == 1 && len(drCallsIn(is.Body, "cc.session.WriteMessage")) == 0 {
+			deletes(is.Body) && len(drCallsIn(is.Body, "cc.session.WriteMessage")) == 0 {
 			if is2, ok := ck.Body.List[1].(*ast.IfStmt); ok && len(drCallsIn(is2.Cond, "value.Retransmit")) == 1 {
 				expFirst = true
 			}
@@ -372,6 +393,13 @@ func genRetransmit(g *gen, repo string) {
 	}
 	if !expFirst {
 		fail("checkMidHandlerContainer: shape not recognised")
+	}
+	// is expiry tested again (and the entry dropped) later in the same pass, i.e. after the retransmission was written?
+	recheck := false
+	for _, st := range ck.Body.List[2:] {
+		if is, ok := st.(*ast.IfStmt); ok && len(drCallsIn(is.Cond, "value.IsExpired")) >= 1 && deletes(is.Body) {
+			recheck = true
+		}
 	}
 	// handleSpecialMessages removes the pending entry by the received MID; prepareWriteMessage defers removal by req.MessageID()
 	hs := funcDecl(f, "Conn", "handleSpecialMessages")
@@ -428,6 +456,7 @@ func genRetransmit(g *gen, repo string) {
 	fmt.Fprintf(&b, "/-- midElement.IsExpired: the deadline test is the strict `now.After(deadline)` (AST) -/\ndef deadlineStrict : Bool := %s\n", drLeanBool(deadlineStrict))
 	fmt.Fprintf(&b, "/-- midElement.Retransmit: `now.After(start.Add(ackTimeout * (retransmit + addend)))`, then one increment (AST) -/\ndef retransmitAddend : Nat := %d\n", addend)
 	fmt.Fprintf(&b, "/-- checkMidHandlerContainer tests expiry (delete, no write) before the retransmit decision (AST) -/\ndef expiryBeforeRetransmit : Bool := %s\n", drLeanBool(expFirst))
+	fmt.Fprintf(&b, "/-- checkMidHandlerContainer tests expiry again after it has written a retransmission and drops the entry in the same pass (AST) -/\ndef dropsInPassOfLastCopy : Bool := %s\n", drLeanBool(recheck))
 	fmt.Fprintf(&b, "/-- handleSpecialMessages removes the pending entry keyed by the received message's MID (AST) -/\ndef recvRemovesByMID : Bool := %s\n", drLeanBool(ackRemoves))
 	fmt.Fprintf(&b, "/-- prepareWriteMessage stores a clone and registers the removal by MID that writeMessage defers (AST) -/\ndef storesClone : Bool := %s\ndef deferredRemovalByMID : Bool := %s\n", drLeanBool(storesClone), drLeanBool(deferredRemoval && deferClose))
 	fmt.Fprintf(&b, "/-- doInternal: a response reaching the token handler removes the request's pending entry and wakes the writer (RFC 7252 5.2.2) (AST) -/\ndef responseWakesWriter : Bool := %s\n", drLeanBool(respWakes))
